@@ -237,6 +237,9 @@ def evaluate(pid, cases, oc=None, compare_outside_domain=False):
     if pid == 'C06':
         collection_route(oc, [(c, t, o) for c, t, o in zip(cases, texts, impl_obs)
                               if 'err' in o and not o['err'] and len(o.get('warns') or []) >= 2 and 'live_history' not in c])
+    if pid == 'C04':
+        collection_payload_route(oc, pid, [(c, t, o) for c, t, o in zip(cases, texts, impl_obs)
+                                           if 'err' in o and not o['err'] and 'live_history' not in c and c['cls'] in CARRYING])
     if pid == 'C12':
         nonstrict_route(oc, [(c, t, o) for c, t, o in zip(cases, texts, impl_obs)
                              if 'err' in o and (o['err'] in ('MosMergeError', 'MosCompletedMergeError') or (not o['err'] and o['warns'])) and 'live_history' not in c])
@@ -478,6 +481,47 @@ def nonstrict_route(oc, triples, limit=500):
                                'impl': {'err': err, 'completed': bool(mc.completed), 'direct': {'err': o['err'], 'warns': o['warns']}}})
 
 
+def collection_payload_route(oc, pid, triples, limit=300):
+    """C04 through the collection: what a message carries reaches the running order exactly as the document says also when
+    the message is one of a collection's documents (strings and files) - the readers restore it from what they kept.
+    Scripted documents with CDATA, character references and non-ASCII text, plus a sample of the enumerated cases."""
+    import warnings
+    from . import impl, coll_family
+    from mosromgr.moscollection import MosCollection
+    ro0 = ('<mos><mosID>m</mosID><ncsID>n</ncsID><messageID>1</messageID><roCreate><roID>RO1</roID><roSlug>s</roSlug>'
+           '<story><storyID>A</storyID><item><itemID>a1</itemID></item></story><story><storyID>B</storyID></story></roCreate></mos>')
+    rich = '<p><![CDATA[caf\u00e9 & <b> \u20ac]]></p><p>na&#239;ve &amp; &#x20AC; \u00fc</p><item><itemID>n1</itemID><itemSlug><![CDATA[\u00dcber]]></itemSlug></item>'
+    scripted = [('roStoryAppend with CDATA', '<mos><mosID>m</mosID><ncsID>n</ncsID><messageID>2</messageID><roStoryAppend><roID>RO1</roID><story><storyID>N</storyID>%s</story></roStoryAppend></mos>' % rich),
+                ('roStorySend with CDATA', '<mos><mosID>m</mosID><ncsID>n</ncsID><messageID>2</messageID><roStorySend><roID>RO1</roID><storyID>A</storyID><storyBody>%s</storyBody></roStorySend></mos>' % rich.replace('item>', 'storyItem>')),
+                ('roReplace with CDATA', '<mos><mosID>m</mosID><ncsID>n</ncsID><messageID>2</messageID><roReplace><roID>RO1</roID><roSlug><![CDATA[Sp\u00e4t]]></roSlug><story><storyID>R</storyID>%s</story></roReplace></mos>' % rich),
+                ('roItemInsert with CDATA', '<mos><mosID>m</mosID><ncsID>n</ncsID><messageID>2</messageID><roItemInsert><roID>RO1</roID><storyID>A</storyID><itemID>a1</itemID><item><itemID>n1</itemID><note><![CDATA[\u00e9\u00e8]]></note></item></roItemInsert></mos>'),
+                ('declared ISO-8859-1 given as str', '<?xml version="1.0" encoding="ISO-8859-1"?><mos><mosID>m</mosID><ncsID>n</ncsID><messageID>2</messageID><roStoryAppend><roID>RO1</roID><story><storyID>N</storyID><p>Caf\u00e9 owners \u00a320</p></story></roStoryAppend></mos>')]
+    jobs = [(lbl, ro0, m) for lbl, m in scripted]
+    step = max(1, len(triples) // limit)
+    jobs += [(c['label'], rt, mt) for c, (rt, mt), o in triples[::step]]
+    for lbl, ro_text, msg_text in jobs:
+        ro_text, msg_text = ro_text.replace('\r', '&#13;'), msg_text.replace('\r', '&#13;')
+        try:
+            with warnings.catch_warnings():
+                warnings.simplefilter('ignore')
+                ro = impl.load(ro_text)
+                ro += impl.load(msg_text)
+            direct = TJ.to_tree(ro.xml)
+        except Exception:  # noqa: BLE001 - not a successful merge: nothing arrives
+            continue
+        for via in ('strings', 'files'):
+            o = coll_family.impl_collection([ro_text, msg_text], True, False, via=via)
+            if o['err'] is not None or not o['run']:
+                continue                      # not a collection (odd message IDs, another roID): C11's business
+            oc.evaluations += 1
+            oc.count('collection-payload-route:' + via)
+            if o['run']['err'] is not None or o['run']['ro'] != direct:
+                oc.failing.append({'kind': 'add', 'label': lbl + f':via collection from {via}', 'cls': '?', 'ro_text': ro_text, 'msg_text': msg_text,
+                                   'payload_route': via,
+                                   'spec': 'merged as a document of a collection the message leaves the running order it leaves when added directly (what it carries arrives as the document says)',
+                                   'impl': {'err': o['run']['err'], 'collection': TJ.to_text(o['run']['ro'])[:1500], 'direct': TJ.to_text(direct)[:1500]}})
+
+
 def c07_extra(o):
     """C07 observations beyond the merge step itself: the `completed` accessor, the written-out and
     re-read document, and the refusal under -W error."""
@@ -513,6 +557,10 @@ def replay_add(pid, rec):
     if 'file_route' in rec:
         oc2 = Outcome(pid)
         file_route(oc2, pid)
+        return bool(oc2.failing), {'failing': [f['label'] for f in oc2.failing]}
+    if 'payload_route' in rec:
+        oc2 = Outcome(pid)
+        collection_payload_route(oc2, pid, [({'label': 'replay', 'cls': rec.get('cls', '?')}, (rec['ro_text'], rec['msg_text']), None)], limit=1)
         return bool(oc2.failing), {'failing': [f['label'] for f in oc2.failing]}
     if 'nonstrict_route' in rec:
         oc2 = Outcome(pid)
